@@ -91,7 +91,7 @@ def c02(tier, seed):
         + [dict(kind="hist15", pid="C02", n_histories=(40 if tier == "quick" else 400), only=["executor_rerun_used_partially_consumed_graph"],
                 **_seeds(seed + 65, k)) for k in range(2 if tier == "quick" else 8)]
         + diff_jobs("C02", tier, seed, dict(flags=0.2, nest=0.3, nest_flag=0.0, share_fns=0.3), 2, nj_scale=0.5,
-                    only=["call_site_received_wrong_values"]),
+                    only=["call_site_received_wrong_values", "tawazi_returned_but_plain_python_raises"]),
         level="exploration", rule=RULE_SCHED + RULE_W3 + "; plus generated programs with nested DAGs (depth 2), operators, indexing and keyword "
         "arguments where every executed call site must receive exactly the reference's argument terms", assumptions=ASSUME_COMMON,
         required_reach=["c02_dep_edges", "c02_value_checks", "c10_dependent_arg_checks", "XENTER", "FENTER"], parallel=8 if tier == "quick" else 16,
@@ -135,6 +135,9 @@ def c03(tier, seed):
 def c04(tier, seed):
     return dict(
         jobs=w3_jobs(seed) + sched_jobs(tier, seed, gen=dict(nmin=4, nmax=14, mc_max=8, max_deps=1, seq_rate=0.05), dfs_gen=dict(nmin=3))
+        # resources decide the thread in EVERY execution mode: executors restricted by target / exclude / root nodes, setup nodes
+        # (any resource) run by setup() or by the first call
+        + sched_jobs(tier, seed + 21, gen=dict(nmin=3, nmax=9, mc_max=4, max_deps=2, setup_rate=0.3), selections=True, dfs=False, stress=False, scale=0.4)
         + diff_jobs("C04", tier, seed, dict(flags=0.2, nest=0.3, nest_flag=0.2, share_fns=0.3, seq=0.2), 2, nj_scale=0.25, only=[]),
         level="exploration", rule=RULE_SCHED + RULE_W3 + "; wide fan-outs (ready >> max_concurrency), max_concurrency 1..8",
         assumptions=ASSUME_COMMON, required_reach=["c04_pooled_decisions", "c04_thread_checks", "SUBMIT"],
@@ -248,6 +251,8 @@ def c07(tier, seed):
             jobs.append(dict(kind="cp", exhaustive_n=[6], part=p, nparts=16, random_cases=0, seed=seed * 97 + 100 + p, hashseed=(p * 5 + 1) % 16,
                              variants={"target": "one", "root": 1, "exclude": 1, "config": 1, "debug": 1, "compose": 1, "retry": 1}))
         ex = "all DAGs on 2..5 nodes under 16 hash seeds with every single-target executor, all 32768 DAGs on 6 nodes (one hash seed each)"
+    # the documented function also on DAGs of hundreds of nodes (a 520..700-node chain among them)
+    jobs += [dict(kind="scale", pid="C07", n_cases=(1 if tier == "quick" else 4), nmin=150, nmax=400, **_seeds(seed + 59, k)) for k in range(1 if tier == "quick" else 4)]
     return dict(
         jobs=jobs, level="exploration", exhaustive=True,
         rule="exhaustive enumeration: " + ex + "; priorities are a permutation of distinct powers of ten so a table entry spells out "
@@ -291,6 +296,8 @@ def diff_jobs(pid, tier, seed, feats, depth, scale=1.0, clauses=True, only=None,
 def c01(tier, seed):
     return dict(
         jobs=diff_jobs("C01", tier, seed, dict(flags=0.2, nest=0.15, nest_flag=0.15, share_fns=0.3), 2)
+        # programs of hundreds of statements (a 520..700-step chain among them) are still just programs
+        + [dict(kind="scale", pid="C01", n_cases=(1 if tier == "quick" else 4), nmin=150, nmax=400, **_seeds(seed + 57, k)) for k in range(1 if tier == "quick" else 4)]
         # the k-th call on ONE object (after calls, executors, composes, reloads, failing calls; both flavours) still returns what
         # plain Python returns; so does an executor that is run again
         + [dict(kind="hist15", pid="C01", n_histories=(40 if tier == "quick" else 400),
